@@ -228,10 +228,11 @@ pub fn observe(vm: &mut Vm<'static, Host>, prog: &CaoCompiledProgram, pr: &Print
 fn run_fresh(prog: &CaoCompiledProgram, pr: &Printed, budget: u64) -> Obs {
     let mut vm = new_vm(budget);
     let o = observe(&mut vm, prog, pr);
-    // Never run the VM's destructor: after a panic its state is arbitrary, and after a value-stack overflow in
-    // FunctionPointer/Closure/NativeFunctionPointer the freed object is still in `object_list`, so that
-    // RuntimeData::clear (called by Drop) frees it a second time (observed as SIGSEGV / abort).
-    std::mem::forget(vm);
+    // After a panic the VM's state is arbitrary: do not run its destructor. (Before a72177e a function object that
+    // did not fit on the value stack was freed but left in `object_list`, and dropping the Vm freed it again.)
+    if o.kind == Kind::Panic {
+        std::mem::forget(vm);
+    }
     o
 }
 
@@ -313,10 +314,10 @@ fn emit_program(w: &mut CaseWriter, name: &str, m: Module, extra_budgets: &[u64]
             let stop = o.kind == Kind::Panic;
             kinds.push(o.kind);
             if stop {
+                std::mem::forget(vm);
                 break;
             }
         }
-        std::mem::forget(vm);
         w.count(if clear { "mode.history_clear" } else { "mode.history" });
     } else {
         let mut budgets: Vec<u64> = vec![GENEROUS];
